@@ -61,6 +61,9 @@ pub enum Bad {
     /// a batch that would take a table of 65,535 or 65,536 rows past the row
     /// limit (runs for one selector value in eight: the table is expensive)
     InsertOverRowLimit(u8),
+    /// an insert / update / create_table that needs one more string than a
+    /// full pool (65,535 entries) can take (runs for one selector value in 16)
+    PoolFull(u8),
 }
 
 #[derive(Clone, Debug, Serialize, Deserialize, Hash, PartialEq, Eq)]
@@ -190,6 +193,21 @@ fn perform(run: &mut Run, bad: &Bad) -> Option<(String, std::io::Result<()>)> {
             let rows: Vec<Vec<Value>> = (0..extra).map(|i| vec![Value::Int(start + i), Value::from(format!("over the limit {i}"))]).collect();
             Some((format!("insert(Full, {extra} more rows)"), run.pkg().insert_rows(Insert::into("Full").rows(rows))))
         }
+        Bad::PoolFull(k) => match (k / 16) % 4 {
+            3 => Some((
+                "create_table(Extra) whose three names fit into the pool but whose enumeration does not".into(),
+                run.pkg().create_table("Extra", vec![Column::build("FirstNewName").primary_key().int16(), Column::build("SecondNewName").nullable().enum_values(&["A", "B"]).string(8)]),
+            )),
+            0 => Some(("insert(S, one row with a string new to the full pool)".into(), run.pkg().insert_rows(Insert::into("S").row(vec![Value::from("one string too many")])))),
+            1 => Some((
+                "insert(S, a row with a pooled string, then a row with a new one)".into(),
+                run.pkg().insert_rows(Insert::into("S").row(vec![Value::from("t")]).row(vec![Value::from("one string too many")])),
+            )),
+            _ => Some((
+                "create_table(Extra) whose names are new to the full pool".into(),
+                run.pkg().create_table("Extra", vec![Column::build("FirstNewName").primary_key().int16(), Column::build("SecondNewName").nullable().int16()]),
+            )),
+        },
         Bad::InsertUnknownTable => Some(("insert(unknown table)".into(), run.pkg().insert_rows(Insert::into("NoSuchTable").row(vec![Value::Int(1)])))),
         Bad::InsertArity(sel, n) => {
             let t = table_at(*sel)?;
@@ -404,6 +422,17 @@ pub fn check_case(case: &Case, st: &mut Stats) -> Check {
         }
         run.trace.push(format!("create_table(Full); insert(Full, {n} rows)"));
     }
+    if let Bad::PoolFull(k) = &case.bad {
+        if k % 16 != 0 {
+            st.class("not-applicable");
+            return Ok(());
+        }
+        // the session continues on a file whose pool is already full
+        let bytes = crate::props::c20::file_with_pool(if (k / 16) % 4 == 3 { 65_532 } else { 65_535 })?;
+        run.buf = crate::media::SharedBuf::new(bytes);
+        run.pkg = Some(Package::open(run.buf.clone()).map_err(|e| Fail::new(format!("{P} unexpected-error op=Open"), e.to_string()))?);
+        run.trace.push("(the package is replaced by a file whose string pool holds 65,535 entries, or 65,532 for the late-failing creation)".into());
+    }
     if let Bad::DropGhost(k) = &case.bad {
         let row = |col: &str| -> Vec<Value> {
             vec![Value::from("Ghost"), Value::from(col), Value::from("N"), Value::Null, Value::Null, Value::Null, Value::Null, Value::from("Identifier"), Value::Null, Value::from("left over")]
@@ -472,6 +501,26 @@ pub fn check_case(case: &Case, st: &mut Stats) -> Check {
             return Err(Fail::new(format!("{P} file-inconsistent kind={k} call={kind}"), detail(&d)));
         }
     }
+    // 4. the same call once more: a refusal that leaves something behind
+    // unobserved (a string parked in the pool, a half-registered name) shows
+    // when the call is simply retried
+    match crate::engine::catch(|| perform(&mut run, &case.bad)) {
+        Err((loc, msg)) => return Err(Fail::new(format!("{P} panic at={loc}"), format!("the invalid call panicked when it was repeated: {msg}; call: {:?}; history: {trace}", case.bad))),
+        Ok(Some((_, Err(_)))) => {
+            let snap2 = run.snapshot(P)?;
+            if let Some((part, d)) = snap0.diff(&snap2) {
+                return Err(Fail::new(format!("{P} changed-by-retry part={part} call={kind}"), detail(&format!("after the same call was rejected a second time, {part} changed: {d}"))));
+            }
+            run.pkg().flush().map_err(|e| Fail::new(format!("{P} unexpected-error op=Flush"), format!("{e}; history: {trace}")))?;
+            let bytes2 = run.buf.contents();
+            if let (Ok(a), Ok(b)) = (reopen_snapshot(&bytes0), reopen_snapshot(&bytes2)) {
+                if let Some((part, d)) = a.diff(&b) {
+                    return Err(Fail::new(format!("{P} changed-after-reopen-by-retry part={part} call={kind}"), detail(&format!("after a second rejection, saving and reopening, {part} differs: {d}"))));
+                }
+            }
+        }
+        _ => {}
+    }
     Ok(())
 }
 
@@ -504,6 +553,7 @@ fn bad_strategy() -> impl Strategy<Value = Bad> {
         1 => any::<u8>().prop_map(Bad::StreamMissing),
         2 => any::<u8>().prop_map(Bad::DropGhost),
         1 => any::<u8>().prop_map(Bad::InsertOverRowLimit),
+        1 => any::<u8>().prop_map(Bad::PoolFull),
     ]
 }
 
